@@ -34,6 +34,7 @@ package runtime
 //@ lock semaState.mu protects self.waiters
 //@ requires addr != nil
 //@ ensures C11 one-permit: ghost(add_one) == 1 && ghost(add_other) == 0 && ghost(cas_dec) == 0 && ghost(cas_other) == 0 && ghost(stores) == 0
+//@ ensures C11 wakes-a-waiter: cs_old(self.waiters) != 0 ==> ghost(signals) >= 1
 //@ modifies everything
 
 //@ func sync_runtime_notifyListAdd
